@@ -84,27 +84,34 @@ DASKML = types.SimpleNamespace(cluster=types.SimpleNamespace(k_means=types.Simpl
 REPL = {"numpy": NPX, "dask": DASK, "scipy": SCIPY, "h5py": h5model.H5, "dask_ml": DASKML}
 
 
-def _float(x=0.0):
-    if isinstance(x, (SV, SInt)):
-        return x
-    if isinstance(x, _np.ndarray) and x.dtype == object:
-        if x.size != 1:
-            raise TypeError("only length-1 arrays can be converted to Python scalars")
-        return x.flat[0]
-    return builtins.float(x)
-
-
-def _int(x=0, *a):
-    if isinstance(x, (SV, SInt)) and not a:
-        return x
-    if isinstance(x, _np.ndarray) and x.dtype == object and x.size == 1 and not a:
-        return x.flat[0]
-    return builtins.int(x, *a)
-
-
-class _FloatMeta(type):
+class _NumMeta(type):
     def __instancecheck__(cls, inst):
-        return isinstance(inst, builtins.float)
+        return isinstance(inst, cls.__mro__[1])
+
+    def __subclasscheck__(cls, sub):
+        return issubclass(sub, cls.__mro__[1])
+
+
+class _float(builtins.float, metaclass=_NumMeta):
+    """`float` as seen by the analysed code: identity on symbolic scalars"""
+
+    def __new__(cls, x=0.0):
+        if isinstance(x, (SV, SInt)):
+            return x
+        if isinstance(x, _np.ndarray) and x.dtype == object:
+            if x.size != 1:
+                raise TypeError("only length-1 arrays can be converted to Python scalars")
+            return x.flat[0]
+        return builtins.float(x)
+
+
+class _int(builtins.int, metaclass=_NumMeta):
+    def __new__(cls, x=0, *a):
+        if isinstance(x, (SV, SInt)) and not a:
+            return x
+        if isinstance(x, _np.ndarray) and x.dtype == object and x.size == 1 and not a:
+            return x.flat[0]
+        return builtins.int(x, *a)
 
 
 def _make_builtins(importer):
